@@ -1,6 +1,6 @@
 import Lean.Data.Json
 import CbiVerif.Model.EvalBridge
-import CbiVerif.PP.Expand
+import CbiVerif.Model.ExpandPP
 import CbiVerif.PP.Define
 /-! driver ops for C02.
 
@@ -101,7 +101,7 @@ def handleEvalx (j : Json) : Json :=
     match build defs.toList [] with
     | .error e => .error (ppErrName e)
     | .ok tbl =>
-      match runExpand tbl (tokenize text) with
+      match runExpandT tbl (tokenize text) with
       | .ok ts => .ok ts
       | .error e => .error (ppErrName e)
       | .sig s => .error ("sig:" ++ s)
